@@ -22,6 +22,7 @@ TITLES = {
     '_two_files': 'two files: blocks of both in file order, unreadable/vanished file skipped, each readable file opened once',
     '_split_invariance': 'read(a,c) == merge(read(a,b), read(b+1,c)) for every split point (per-file extraction + merge)',
     '_cache_sequence': 'a long-lived reader: a pass over missing files between two reads of a file leaves the second read equal to the first (no stale cached handle)',
+    '_appearing_file': 'a long-lived reader sees a file that was not finalized yet when an earlier pass probed it as soon as it exists (monotone visibility: nothing about a failed probe is remembered)',
     '_first_last': 'first/last sample of a file == min/max of Sem(index, rows)',
     '_bounds_scan': 'bounds = first sample of first readable file, last of last readable file; vanished/corrupt files skipped; RF files only',
     '_bounds_merge': 'bounds across top-level directories == (min first, max last) over directories holding data',
